@@ -276,6 +276,10 @@ def job_spline_deriv(which, seed):
             out.append(o)
     if not any(o['id'].endswith('/deriv') for o in out):
         raise core.Undecided('vacuity: no spline derivative obligation generated for ' + which)
+    if which == 'cubic':          # the unbounded form (arbitrary interval of a grid of arbitrary size), all three spline kinds
+        for o in C12.job_deriv_allN(seed):
+            o['id'] = o['id'].replace('C12.', 'C07.spline.', 1)
+            out.append(o)
     return out
 
 
